@@ -6,10 +6,12 @@ From SedV Require Import Xnum FilterOut FitModel Fit3Proofs Mono Window.
 Close Scope Q_scope.
 Open Scope Z_scope.
 
-(* indices (0-based, into the decreasing wavelength array) for which MO<j+1>.fits is written; repaired loop *)
+(* indices (0-based, into the decreasing wavelength array) for which MO<j+1>.fits is written; repaired loop.
+   chunk_size = max(1, min(chunk_size, jhi - jlo + 1)): a memory limit too small for a single wavelength, or a window holding no
+   wavelength, still gives a positive step (F36: range() used to be called with step 0) *)
 Definition mono_m (wavs : list Q) (wmin wmax : Q) (chunk : Z) : Z * Z * list Z :=
   let lo := jlo wavs wmax in let hi := jhi wavs wmin in
-  let c := Z.min chunk (hi - lo + 1) in
+  let c := Z.max 1 (Z.min chunk (hi - lo + 1)) in
   (lo, hi, emit_fixed lo hi c).
 (* the loop as it stood before the repair *)
 Definition mono_current_m (wavs : list Q) (wmin wmax : Q) (chunk : Z) : Z * Z * list Z :=
@@ -17,15 +19,30 @@ Definition mono_current_m (wavs : list Q) (wmin wmax : Q) (chunk : Z) : Z * Z * 
   let c := Z.min chunk (hi - lo + 1) in
   (lo, hi, emit_current lo hi c).
 
+Lemma emit_fixed_empty lo hi c : hi < lo -> emit_fixed lo hi c = [].
+Proof.
+  intros H. unfold emit_fixed, range_step.
+  replace (Z.to_nat (hi + 1 - lo)) with 0%nat by lia. reflexivity.
+Qed.
+
 Theorem mono_emits_window wavs wmin wmax chunk :
   let '(lo, hi, out) := mono_m wavs wmin wmax chunk in
-  1 <= chunk -> lo <= hi -> out = zseq lo (Z.to_nat (hi - lo + 1)).
-Proof. unfold mono_m. intros Hc Hle. apply emitted_all; lia. Qed.
+  lo <= hi -> out = zseq lo (Z.to_nat (hi - lo + 1)).
+Proof. unfold mono_m. intros Hle. apply emitted_all; lia. Qed.
+
+(* a window that holds no tabulated wavelength: nothing is written (and the call returns) whatever the memory limit *)
+Theorem mono_empty_window wavs wmin wmax chunk :
+  let '(lo, hi, out) := mono_m wavs wmin wmax chunk in hi < lo -> out = [].
+Proof. unfold mono_m. intros H. apply emit_fixed_empty. exact H. Qed.
 
 Theorem mono_chunk_independent wavs wmin wmax c c' :
-  1 <= c -> 1 <= c' -> jlo wavs wmax <= jhi wavs wmin ->
   mono_m wavs wmin wmax c = mono_m wavs wmin wmax c'.
-Proof. intros Hc Hc' Hle. unfold mono_m. f_equal. rewrite !emitted_all by lia. reflexivity. Qed.
+Proof.
+  unfold mono_m. f_equal.
+  destruct (Z_lt_le_dec (jhi wavs wmin) (jlo wavs wmax)) as [H|H].
+  - now rewrite !emit_fixed_empty by exact H.
+  - rewrite !emitted_all by lia. reflexivity.
+Qed.
 
 (* np.argmin(np.abs(cube.wav - w0)) *)
 Definition Qabsd (a b : Q) : Q := if Qle_bool b a then (a - b)%Q else (b - a)%Q.
